@@ -1582,6 +1582,25 @@ def mon_c15(im, p):
             fails.append({'signature': 'layout-changes-tree', 'what': f'plain {p["plain"]!r} and decorated {p["decorated"]!r} parse differently'
                           + (f' after {pre!r}' if pre else '') + f': {a[:120]} vs {b[:120]}', 'input': p})
             break
+    if not fails and p.get('neighbours'):
+        # a parser with a retaining parse cache that has already served NEIGHBOURING texts (the same text with its runs of blanks
+        # collapsed / doubled / tabs for blanks / blanks removed - inside string literals and %names% too, where they matter):
+        # both layouts still read as the plain text does on a fresh parser
+        imc = sqimpl.Impl(im.ns, parse_cache={})
+        for t in (p['plain'], p['decorated']):
+            for nb in (re.sub(r'[ \t]+', ' ', t), t.replace(' ', '  '), t.replace('\t', ' '), t.replace(' ', '\t'), t.strip() + ' ', ' ' + t,
+                       t.replace(' ', ''), re.sub(r'\s+', ' ', t), t.replace('\r\n', '\n')):
+                if nb != t:
+                    try:
+                        imc.p.parse(nb)
+                    except Exception:
+                        pass
+        for t in (p['plain'], p['decorated']):
+            b = imc.parse_out(t)
+            if a != b:
+                fails.append({'signature': 'layout-changes-tree-on-cached-parser', 'what': f'{t!r} read by a caching parser that has served neighbouring '
+                              f'texts: {b[:120]}; plain {p["plain"]!r} on a fresh parser: {a[:120]}', 'input': p})
+                break
     return {'fail': fails, 'nontrivial': True}
 
 
@@ -1644,6 +1663,46 @@ def mon_c16(im, p):
                     fails.append({'signature': 'stale-call-target', 'what': f'{src!r} evaluated ({variant}) for the {j + 1}th time with names {sorted(names)}: '
                                   f'{outcome}; a fresh parser: {exp}', 'input': p})
                     return {'fail': fails, 'nontrivial': True}
+        return {'fail': fails, 'nontrivial': True}
+    if 'after_failed' in p:
+        # a text that is wrong (a line ending in the middle of an expression, a missing closer, …) is a ParserError whatever the
+        # same parser was given before: texts that failed with brackets still open, list_names generators abandoned inside brackets
+        openers, broken = p['after_failed']
+
+        def outcome(imx, api, text):
+            try:
+                if api == 'parse':
+                    imx.p.parse(text)
+                elif api == 'names':
+                    list(imx.p.list_names(text))
+                else:
+                    imx.p.eval(text, {}, max_ops_evaluated=200)
+                return 'value'
+            except PE:
+                return 'ParserError'
+            except Exception as e:
+                return type(e).__name__
+        keep = []
+        for op in openers:
+            imx = sqimpl.Impl(ns)
+            for text in broken:
+                for api in ('eval', 'parse'):
+                    if isinstance(op, list):
+                        try:
+                            it = iter(imx.p.list_names(op[0]))
+                            for _ in range(op[1]):
+                                next(it)
+                            keep.append(it)
+                        except Exception:
+                            pass
+                    else:
+                        outcome(imx, 'eval', op)
+                    got = outcome(imx, api, text)
+                    exp = 'ParserError'        # every text of the list is a syntax error
+                    if got != exp:
+                        fails.append({'signature': 'outcome-depends-on-earlier-failure', 'what': f'{api}({text!r}) after {op!r} on the same parser: {got}; '
+                                      f'a syntax error is a {exp}', 'input': {'after_failed': [[op], [text]]}})
+                        return {'fail': fails, 'nontrivial': True}
         return {'fail': fails, 'nontrivial': True}
     if 'seq' in p:
         # calls WITHOUT a names mapping: what one program assigns must be undefined for the next one
